@@ -195,6 +195,9 @@ struct Values {
     char c; wchar_t wc; char16_t c16; char32_t c32; char8_t c8; bool b;
     S text, text2;                 // backing storage
     std::wstring wtext; std::u16string u16text; std::u32string u32text; std::u8string u8text;
+    // backing buffers of the string_view members: the views are interior sub-ranges, so the unit
+    // after a view's end is never a terminator
+    S svback; std::wstring wback; std::u16string u16back; std::u32string u32back; std::u8string u8back;
     const char *cstr; ST::string st; std::string ss; std::string_view sv;
     const wchar_t *wstr; const char16_t *u16; const char32_t *u32; const char8_t *u8;
     std::wstring ws; std::u16string s16; std::u32string s32; std::u8string s8;
@@ -363,7 +366,8 @@ inline void random_values(vrt::Rng &r, Values &v)
     v.cstr = v.text.c_str();
     v.st = ST::string::from_validated(v.text2.data(), v.text2.size());
     v.ss = text(10);
-    v.sv = std::string_view(v.text).substr(0, v.text.size());
+    v.svback = "<" + v.text + ">tail";
+    v.sv = std::string_view(v.svback).substr(1, v.text.size());
     std::u32string w32;
     for (size_t n = r.below(8); n-- > 0;) w32 += static_cast<char32_t>(random_cp(r));
     v.u32text = w32;
@@ -374,7 +378,11 @@ inline void random_values(vrt::Rng &r, Values &v)
     v.u8text.assign(reinterpret_cast<const char8_t *>(u8t.data()), u8t.size());
     v.wstr = v.wtext.c_str(); v.u16 = v.u16text.c_str(); v.u32 = v.u32text.c_str(); v.u8 = v.u8text.c_str();
     v.ws = v.wtext; v.s16 = v.u16text; v.s32 = v.u32text; v.s8 = v.u8text;
-    v.wsv = v.wtext; v.sv16 = v.u16text; v.sv32 = v.u32text; v.sv8 = v.u8text;
+    v.wback = L"<" + v.wtext + L">tail"; v.u16back = u"<" + v.u16text + u">tail"; v.u32back = U"<" + v.u32text + U">tail"; v.u8back = u8"<" + v.u8text + u8">tail";
+    v.wsv = std::wstring_view(v.wback).substr(1, v.wtext.size());
+    v.sv16 = std::u16string_view(v.u16back).substr(1, v.u16text.size());
+    v.sv32 = std::u32string_view(v.u32back).substr(1, v.u32text.size());
+    v.sv8 = std::u8string_view(v.u8back).substr(1, v.u8text.size());
 }
 
 inline S describe_values(const std::vector<Arg> &args)
